@@ -1,6 +1,7 @@
 import AuthbossModel.DriverCS
 import AuthbossModel.Machine.Wire
 import AuthbossModel.DriverLock
+import AuthbossModel.DriverRedirect
 
 open AuthbossModel
 
@@ -9,6 +10,7 @@ def dispatch (d : M.DState) (line : String) : M.DState × String :=
   match (line.trimAscii.toString.splitOn " ").filter (· ≠ "") with
   | "csrw" :: args => (d, CS.handle args)
   | "lock" :: args => (d, Lock.handle args)
+  | "redir" :: args => (d, Redirect.handle args)
   | "mcfg" :: args => M.handleLine d ("mcfg" :: args)
   | "m" :: args => M.handleLine d ("m" :: args)
   | _ => (d, "bad-op")
